@@ -149,7 +149,7 @@ Lemma asy_body_plain nt wrapped Ti mi poll ls :
   wrapped && negb (Ti =? 0) && ((poll =? 0) || (Ti <? poll)) = false -> forall s v,
   match asy_body nt wrapped Ti mi poll None ls (now s) v (topen s) with
   | BFin t o c => c = false /\ out (plain_seq ls s v) = o /\ rst (plain_seq ls s v) = set_now t s
-  | BCancelled => False
+  | BCancelled _ => False
   | BHang => out (plain_seq ls s v) = Hang
   end.
 Proof.
@@ -163,13 +163,13 @@ Proof.
     + cbn. rewrite set_now_id. auto.
 Qed.
 
-Lemma asy_op_zero nt mo wrapped Ti mi poll locked ls s :
+Lemma asy_op_zero cancel nt mo wrapped Ti mi poll locked ls s :
   wrapped && negb (Ti =? 0) && ((poll =? 0) || (Ti <? poll)) = false ->
-  zero_spec (asy_op nt 0 mo wrapped Ti mi poll locked ls s) ls s.
+  zero_spec (asy_op cancel nt 0 mo wrapped Ti mi poll locked ls s) ls s.
 Proof.
   intros Hw. unfold asy_op, zero_spec. cbn [N.eqb].
   pose proof (asy_body_plain nt wrapped Ti mi poll ls Hw s 0) as H.
-  destruct (asy_body nt wrapped Ti mi poll None ls (now s) 0 (topen s)) as [t o c| |].
+  destruct (asy_body nt wrapped Ti mi poll None ls (now s) 0 (topen s)) as [t o c|inr|].
   - destruct H as (-> & E1 & E2). cbn [out rst negb]. rewrite E1, E2, Bool.andb_true_r.
     split; [reflexivity|]. intros _. destruct s; reflexivity.
   - contradiction.
@@ -237,7 +237,7 @@ Qed.
 
 (* ======== signal ======== *)
 Definition sig_st (s : pstate) (mo : bytes) (Do t : N) : pstate :=
-  mkP t (HScrapli mo) Do 0 (workers s) true (lock s).
+  mkP t (HScrapli mo) Do 0 (workers s) true (lock s) (tasks s).
 
 Definition sig_step (nt wrapped : bool) (Ti : N) (mi : bytes) (l : leaf) (s' : pstate) : result :=
   if wrapped then sig_wrap true nt Ti mi (sig_leaf nt l) s' else sig_leaf nt l s'.
@@ -253,9 +253,9 @@ Proof.
   destruct wrapped; [|exact Hplain].
   unfold sig_wrap. destruct (Ti =? 0) eqn:ET; [exact Hplain|]. nb.
   assert (d < Ti) by (apply H2; reflexivity).
-  unfold sig_leaf, alarm, sig_st, set_alarm. cbn [topen negb now handler deadline leaf_fin interval workers lock].
+  unfold sig_leaf, alarm, sig_st, set_alarm. cbn [topen negb now handler deadline leaf_fin interval workers lock tasks].
   rewrite (eqb_f (t + Ti) 0) by lia. rewrite N.max_l by lia. rewrite (ltb_t (t + d) (t + Ti)) by lia.
-  cbn [out rst set_now now handler deadline interval workers topen lock].
+  cbn [out rst set_now now handler deadline interval workers topen lock tasks].
   rewrite (eqb_f Do 0) by lia. rewrite (leb_f Do (t + d)) by lia. reflexivity.
 Qed.
 
@@ -283,21 +283,21 @@ Lemma sig_step_stall_inner nt Ti mi s mo Do t l :
 Proof.
   intros Hl HT Hd. unfold sig_step, sig_wrap. rewrite (eqb_f Ti 0) by lia.
   assert (Hf : leaf_fin l t None = None) by (destruct l; try discriminate; reflexivity).
-  unfold sig_leaf, alarm, sig_st, set_alarm. cbn [topen negb now handler deadline interval workers lock].
+  unfold sig_leaf, alarm, sig_st, set_alarm. cbn [topen negb now handler deadline interval workers lock tasks].
   rewrite Hf. rewrite (eqb_f (t + Ti) 0) by lia. rewrite N.max_l by lia.
-  destruct nt; cbn [close_unless out rst set_now set_open now handler deadline interval workers topen lock];
+  destruct nt; cbn [close_unless out rst set_now set_open now handler deadline interval workers topen lock tasks];
     rewrite (eqb_f Do 0) by lia; rewrite (leb_f Do (t + Ti)) by lia; reflexivity.
 Qed.
 
 Lemma sig_step_stall_outer nt wrapped Ti mi s mo Do t l :
   is_stall l = true -> t < Do -> wrapped && negb (Ti =? 0) = false ->
   sig_step nt wrapped Ti mi l (sig_st s mo Do t)
-  = mkR (Raised (ETimeout mo)) (close_unless nt (mkP Do (HScrapli mo) 0 0 (workers s) true (lock s))).
+  = mkR (Raised (ETimeout mo)) (close_unless nt (mkP Do (HScrapli mo) 0 0 (workers s) true (lock s) (tasks s))).
 Proof.
   intros Hl Hd Hw. unfold sig_step.
   assert (Hf : leaf_fin l t None = None) by (destruct l; try discriminate; reflexivity).
   assert (Hplain : sig_leaf nt l (sig_st s mo Do t)
-                   = mkR (Raised (ETimeout mo)) (close_unless nt (mkP Do (HScrapli mo) 0 0 (workers s) true (lock s)))).
+                   = mkR (Raised (ETimeout mo)) (close_unless nt (mkP Do (HScrapli mo) 0 0 (workers s) true (lock s) (tasks s)))).
   { unfold sig_leaf, alarm, sig_st. cbn [topen negb now handler deadline]. rewrite Hf.
     rewrite (eqb_f Do 0) by lia. rewrite N.max_l by lia. reflexivity. }
   destruct wrapped; [|exact Hplain]. cbn in Hw. unfold sig_wrap.
@@ -308,11 +308,11 @@ Qed.
 Lemma sig_exit_restored (s s2 : pstate) (o : outcome) nt T m body :
   0 < T -> user_handler s = true -> o <> Hang ->
   body (set_alarm (HScrapli m) (now s + T) 0 s) = mkR o s2 ->
-  workers s2 = workers s -> lock s2 = lock s ->
+  workers s2 = workers s -> lock s2 = lock s -> tasks s2 = tasks s ->
   let r := sig_wrap true nt T m body s in
   out r = o /\ now (rst r) = now s2 /\ topen (rst r) = topen s2 /\ restored MSignal s (rst r).
 Proof.
-  intros HT Hu Ho Hb Hw Hl r. subst r. unfold sig_wrap. rewrite (eqb_f T 0) by lia. rewrite Hb.
+  intros HT Hu Ho Hb Hw Hl Hk r. subst r. unfold sig_wrap. rewrite (eqb_f T 0) by lia. rewrite Hb.
   cbn [out rst]. unfold restored, timer_back.
   destruct o; try congruence.
   - destruct (deadline s =? 0) eqn:E0; [nb; cbn; repeat split; auto|].
@@ -337,6 +337,8 @@ Proof. destruct nt; cbn; auto. Qed.
 Lemma close_unless_workers nt s : workers (close_unless nt s) = workers s.
 Proof. destruct nt; reflexivity. Qed.
 Lemma close_unless_lock nt s : lock (close_unless nt s) = lock s.
+Proof. destruct nt; reflexivity. Qed.
+Lemma close_unless_tasks nt s : tasks (close_unless nt s) = tasks s.
 Proof. destruct nt; reflexivity. Qed.
 
 Lemma inner_eff_sig c : inner_eff MSignal c = c_wrapped c && negb (c_Ti c =? 0).
@@ -371,9 +373,9 @@ Proof.
     cbn [out] in Hb0.
     assert (Hnh : Raised (ETimeout (c_mi c)) <> Hang) by discriminate.
     pose proof (sig_exit_restored s _ _ (c_nt c) (c_To c) (c_mo c) body HT Hu Hnh Hb0) as R.
-    rewrite close_unless_workers, close_unless_lock, close_unless_now in R.
+    rewrite close_unless_workers, close_unless_lock, close_unless_tasks, close_unless_now in R.
     rewrite close_unless_open in R by reflexivity.
-    specialize (R eq_refl eq_refl). cbn zeta in R. destruct R as (R1 & R2 & R3 & R4).
+    specialize (R eq_refl eq_refl eq_refl). cbn zeta in R. destruct R as (R1 & R2 & R3 & R4).
     rewrite R1. cbn [andb]. rewrite (ltb_t (dur pre + c_Ti c) (c_To c)) by lia.
     repeat split; auto; try apply R4. rewrite R2. cbn. lia.
   - (* only the limit of the operation applies *)
@@ -381,9 +383,9 @@ Proof.
     cbn [out] in Hb0.
     assert (Hnh : Raised (ETimeout (c_mo c)) <> Hang) by discriminate.
     pose proof (sig_exit_restored s _ _ (c_nt c) (c_To c) (c_mo c) body HT Hu Hnh Hb0) as R.
-    rewrite close_unless_workers, close_unless_lock, close_unless_now in R.
+    rewrite close_unless_workers, close_unless_lock, close_unless_tasks, close_unless_now in R.
     rewrite close_unless_open in R by reflexivity.
-    specialize (R eq_refl eq_refl). cbn zeta in R. destruct R as (R1 & R2 & R3 & R4).
+    specialize (R eq_refl eq_refl eq_refl). cbn zeta in R. destruct R as (R1 & R2 & R3 & R4).
     rewrite R1. cbn [andb].
     repeat split; auto; apply R4.
 Qed.
@@ -436,7 +438,7 @@ Proof.
       rewrite (N.min_l (t + c_Ti c) Do) by (unfold t, Do; lia).
       rewrite N.max_l by lia. rewrite (ltb_f (t + c_Ti c) (t + c_Ti c)) by lia.
       rewrite N.max_id. rewrite (ltb_t (t + c_Ti c) Do) by (unfold t, Do; lia).
-      cbn [out rst negb set_open set_now now topen handler deadline interval workers lock].
+      cbn [out rst negb set_open set_now now topen handler deadline interval workers lock tasks].
       rewrite ?Bool.andb_false_r, ?Hnt. unfold restored, timer_back.
       repeat split; auto. unfold t. lia.
     + (* outer first (or a tie) *)
@@ -444,11 +446,11 @@ Proof.
       rewrite (N.max_l Do t) by lia.
       destruct (Do <? t + c_Ti c) eqn:E2.
       * rewrite (ltb_f Do Do) by lia. rewrite N.max_id.
-        cbn [out rst negb set_open set_now now topen handler deadline interval workers lock].
+        cbn [out rst negb set_open set_now now topen handler deadline interval workers lock tasks].
         rewrite ?Bool.andb_false_r, ?Hnt. unfold restored, timer_back. repeat split; auto.
       * nb. assert (Do = t + c_Ti c) by (unfold t, Do in *; lia).
         rewrite N.max_r by lia. rewrite (ltb_f Do Do) by lia. rewrite N.max_id.
-        cbn [out rst negb set_open set_now now topen handler deadline interval workers lock].
+        cbn [out rst negb set_open set_now now topen handler deadline interval workers lock tasks].
         rewrite ?Bool.andb_false_r, ?Hnt. unfold restored, timer_back. repeat split; auto.
   - assert (Hs : (if c_wrapped c then thr_leaf false (c_Ti c) (c_mi c) StallClosed t (Some Do)
                   else match leaf_fin StallClosed t (Some Do) with Some (f, o) => Some (f, o, false) | None => None end)
@@ -457,7 +459,7 @@ Proof.
       destruct (c_wrapped c); [|reflexivity]. cbn in Ew. unfold thr_leaf.
       destruct (c_Ti c =? 0); [|discriminate]. cbn [leaf_fin]. rewrite (N.max_l Do t) by lia. reflexivity. }
     rewrite Hs. rewrite (ltb_f Do Do) by lia. rewrite N.max_id. cbn [andb].
-    cbn [out rst negb set_open set_now now topen handler deadline interval workers lock].
+    cbn [out rst negb set_open set_now now topen handler deadline interval workers lock tasks].
     rewrite ?Bool.andb_false_r, ?Hnt. unfold restored, timer_back. repeat split; auto.
 Qed.
 
@@ -483,12 +485,15 @@ Proof.
     + intros W. specialize (He W). apply Bool.andb_true_iff in He. tauto.
 Qed.
 
+Lemma orphaned_0 s : orphaned 0 s = s.
+Proof. destruct s; unfold orphaned; cbn. rewrite Nat.add_0_r. reflexivity. Qed.
+
 Lemma asy_stall_fires c pre l post s :
-  stall_premises MAsync c pre l s ->
+  c_cancel c = true -> stall_premises MAsync c pre l s ->
   fires MAsync c pre s (run_op MAsync c (pre ++ l :: post) s).
 Proof.
-  intros (HT & Ha & Hl & Hd & He & Ho & Hu).
-  unfold run_op, asy_op. rewrite Ho, (eqb_f (c_To c) 0) by lia.
+  intros Hc (HT & Ha & Hl & Hd & He & Ho & Hu).
+  unfold run_op, asy_op. rewrite Hc, orphaned_0, Ho, (eqb_f (c_To c) 0) by lia.
   unfold inner_eff in He.
   rewrite asy_prefix; auto; try lia.
   set (t := now s + dur pre). set (Do := now s + c_To c).
@@ -500,7 +505,7 @@ Proof.
   destruct (c_wrapped c && negb (c_Ti c =? 0) && ((c_poll c =? 0) || (c_Ti c <? c_poll c))) eqn:Ew.
   - cbn [andb]. destruct (dur pre + c_Ti c <? c_To c) eqn:Ec; nb.
     + rewrite (ltb_t (t + c_Ti c) Do) by (unfold t, Do; lia).
-      cbn [out rst set_open set_now now topen handler deadline interval workers lock].
+      cbn [out rst set_open set_now now topen handler deadline interval workers lock tasks].
       rewrite Bool.negb_involutive. unfold restored, timer_back. repeat split; auto. unfold t. lia.
     + rewrite (ltb_f (t + c_Ti c) Do) by (unfold t, Do; lia).
       cbn [out rst]. rewrite close_unless_now, close_unless_open by (cbn; exact Ho).
@@ -509,36 +514,67 @@ Proof.
     unfold restored, timer_back. destruct (c_nt c); cbn; repeat split; auto.
 Qed.
 
+(* a decorator that does not pass its own cancellation on to the wrapped call (c_cancel = false): whenever the
+   operation's limit falls due inside a decorated transport read whose own limit is on, that read stays behind *)
+Lemma asy_uncancelled_leaves_task c pre l post s :
+  c_cancel c = false -> stall_premises MAsync c pre l s ->
+  c_wrapped c = true -> 0 < c_Ti c -> inner_first MAsync c pre = false ->
+  (l = StallClosed -> c_nt c = true) ->
+  let r := run_op MAsync c (pre ++ l :: post) s in
+  out r = Raised (ETimeout (c_mo c)) /\ tasks (rst r) = S (tasks s) /\ ~ restored MAsync s (rst r).
+Proof.
+  intros Hc (HT & Ha & Hl & Hd & He & Ho & Hu) Hw HTi Hif Hsc r.
+  assert (G : out r = Raised (ETimeout (c_mo c)) /\ tasks (rst r) = S (tasks s)).
+  { subst r. unfold run_op, asy_op. rewrite Hc, Ho, (eqb_f (c_To c) 0) by lia.
+    unfold inner_eff in He.
+    rewrite asy_prefix; auto; try lia.
+    set (t := now s + dur pre). set (Do := now s + c_To c).
+    assert (Htd : t < Do) by (unfold t, Do; lia).
+    assert (Hf : leaf_fin l t None = None) by (destruct l; try discriminate; reflexivity).
+    assert (Hlive : inner_live (c_wrapped c) (c_Ti c) (c_nt c) l = true).
+    { unfold inner_live. rewrite Hw, (eqb_f (c_Ti c) 0) by lia. cbn [andb negb].
+      destruct l; try reflexivity. apply Hsc. reflexivity. }
+    unfold inner_first, inner_eff in Hif.
+    cbn [asy_body reached negb]. rewrite (leb_f Do t) by lia. rewrite Hf, Hlive.
+    unfold inner_deadline.
+    destruct (c_wrapped c && negb (c_Ti c =? 0) && ((c_poll c =? 0) || (c_Ti c <? c_poll c))) eqn:Ew.
+    - cbn [andb] in Hif. nb. rewrite (ltb_f (t + c_Ti c) Do) by (unfold t, Do; lia).
+      cbn [out rst]. split; [reflexivity|]. unfold orphaned. cbn [tasks]. rewrite close_unless_tasks. cbn [set_now tasks]. lia.
+    - cbn [out rst]. split; [reflexivity|]. unfold orphaned. cbn [tasks]. rewrite close_unless_tasks. cbn [set_now tasks]. lia. }
+  destruct G as [G1 G2]. repeat split; auto.
+  intros (_ & _ & _ & _ & K). rewrite G2 in K. lia.
+Qed.
+
 (* ======== the property, for all three mechanisms ======== *)
 (* full strength: whatever the mechanism, NO_TERMINATE setting, kind of stall and pair of timeouts *)
 Definition timeout_fires_full : Prop :=
   forall m c pre l post s,
-    c_rearm c = true -> stall_premises m c pre l s ->
+    c_rearm c = true -> c_cancel c = true -> stall_premises m c pre l s ->
     fires m c pre s (run_op m c (pre ++ l :: post) s).
 
 (* what holds of the code as it is: the extra hypotheses are exactly the regions of the known findings
    (thread mechanism: NO_TERMINATE off and a read that ends when the transport is closed;
     signal mechanism nested over a decorated read: the transport timeout fires before the operation's) *)
 Theorem timeout_fires_partial m c pre l post s :
-  c_rearm c = true -> stall_premises m c pre l s ->
+  c_rearm c = true -> c_cancel c = true -> stall_premises m c pre l s ->
   (m = MThread -> c_nt c = false /\ l = StallClosed) ->
   (m = MSignal -> inner_eff m c = true -> dur pre + c_Ti c < c_To c) ->
   fires m c pre s (run_op m c (pre ++ l :: post) s).
 Proof.
-  intros Hr Hp Ht Hs. destruct m.
+  intros Hr Hc Hp Ht Hs. destruct m.
   - apply sig_stall_fires; auto.
   - destruct (Ht eq_refl). apply thr_stall_fires; auto.
   - apply asy_stall_fires; auto.
 Qed.
 
 Corollary timeout_fires_within_limit m c pre l post s :
-  c_rearm c = true -> stall_premises m c pre l s ->
+  c_rearm c = true -> c_cancel c = true -> stall_premises m c pre l s ->
   (m = MThread -> c_nt c = false /\ l = StallClosed) ->
   (m = MSignal -> inner_eff m c = true -> dur pre + c_Ti c < c_To c) ->
   exists msg, out (run_op m c (pre ++ l :: post) s) = Raised (ETimeout msg) /\
               now (rst (run_op m c (pre ++ l :: post) s)) <= now s + c_To c.
 Proof.
-  intros A B C D. destruct (timeout_fires_partial m c pre l post s A B C D) as (E1 & E2 & _).
+  intros A A' B C D. destruct (timeout_fires_partial m c pre l post s A A' B C D) as (E1 & E2 & _).
   eexists; split; [exact E1|]. rewrite E2. destruct B as (_ & _ & _ & Hd & _).
   pose proof (fire_at_le m c pre Hd). lia.
 Qed.
@@ -551,7 +587,7 @@ Corollary timeout_fires_single m nt T msg l s :
   out r = Raised (ETimeout msg) /\ now (rst r) = now s + T /\ topen (rst r) = nt /\ restored m s (rst r).
 Proof.
   intros HT Hl Ho Hu Ht r. subst r. unfold run_wrapped.
-  pose proof (timeout_fires_partial m (mkC true nt T msg false 0 [] 0 false) [] l [] s) as H.
+  pose proof (timeout_fires_partial m (mkC true nt T msg false 0 [] 0 false true) [] l [] s) as H.
   cbn [app] in H. apply H; auto.
   - unfold stall_premises. cbn. repeat split; auto.
 Qed.
@@ -575,22 +611,22 @@ Proof.
   destruct nt; cbn [thr_body reached]; rewrite ?(leb_f (now s + T) (now s)) by lia; reflexivity.
 Qed.
 
-Definition s0 : pstate := mkP 1000 (HUser 7) 51000 0 0 true false.
+Definition s0 : pstate := mkP 1000 (HUser 7) 51000 0 0 true false 0.
 
-Example s0_premises : stall_premises MThread (mkC true true 200 [1] false 0 [] 0 false) [] StallClosed s0.
+Example s0_premises : stall_premises MThread (mkC true true 200 [1] false 0 [] 0 false true) [] StallClosed s0.
 Proof. unfold stall_premises. cbn. repeat split; auto; discriminate. Qed.
 
 Theorem timeout_fires_full_refuted : ~ timeout_fires_full.
 Proof.
   intros F.
-  destruct (F MThread (mkC true true 200 [1] false 0 [] 0 false) [] StallClosed [] s0 eq_refl s0_premises)
+  destruct (F MThread (mkC true true 200 [1] false 0 [] 0 false true) [] StallClosed [] s0 eq_refl eq_refl s0_premises)
     as [E _].
   vm_compute in E. discriminate.
 Qed.
 
 (* signal over signal, timeout_ops 200 < timeout_transport 1600: ScrapliTimeout only at 1600 *)
 Lemma signal_nested_overshoot :
-  let c := mkC true false 200 [1] true 1600 [2] 0 false in
+  let c := mkC true false 200 [1] true 1600 [2] 0 false true in
   stall_premises MSignal c [Ret 0 0] Stall s0 /\
   now (rst (run_op MSignal c [Ret 0 0; Stall] s0)) = now s0 + 1600.
 Proof. split; [unfold stall_premises; cbn; repeat split; auto; discriminate | vm_compute; reflexivity]. Qed.
@@ -618,16 +654,21 @@ Proof.
 Qed.
 
 Example partial_premises_signal :
-  stall_premises MSignal (mkC true false 1500 [1] true 200 [2] 0 true) [Ret 5 1; Ret 7 2] Stall s0
-  /\ inner_eff MSignal (mkC true false 1500 [1] true 200 [2] 0 true) = true /\ 12 + 200 < 1500.
+  stall_premises MSignal (mkC true false 1500 [1] true 200 [2] 0 true true) [Ret 5 1; Ret 7 2] Stall s0
+  /\ inner_eff MSignal (mkC true false 1500 [1] true 200 [2] 0 true true) = true /\ 12 + 200 < 1500.
 Proof. unfold stall_premises. cbn. repeat split; auto; try discriminate; lia. Qed.
 
 Example partial_premises_thread :
-  stall_premises MThread (mkC true false 200 [1] true 1500 [2] 0 true) [Ret 5 1] StallClosed s0.
+  stall_premises MThread (mkC true false 200 [1] true 1500 [2] 0 true true) [Ret 5 1] StallClosed s0.
 Proof. unfold stall_premises. cbn. repeat split; auto; discriminate. Qed.
 
 Example partial_premises_async :
-  stall_premises MAsync (mkC true true 200 [1] true 150 [2] 1000 false) [Ret 5 1] Stall s0.
+  stall_premises MAsync (mkC true true 200 [1] true 150 [2] 1000 false true) [Ret 5 1] Stall s0.
+Proof. unfold stall_premises. cbn. repeat split; auto; discriminate. Qed.
+
+Example uncancelled_premises :
+  let c := mkC true true 200 [1] true 1500 [2] 0 true false in
+  stall_premises MAsync c [Ret 5 1] Stall s0 /\ inner_first MAsync c [Ret 5 1] = false.
 Proof. unfold stall_premises. cbn. repeat split; auto; discriminate. Qed.
 
 (* ---- an operation that the device answers in time is not disturbed ---- *)
@@ -654,17 +695,17 @@ Proof.
                   = mkR (Returned (last_val ls 0)) (sig_st s (c_mo c) (now s + c_To c) (now s + dur ls))).
     { unfold body. rewrite set_alarm_sig_st by exact Ho. rewrite sig_prefix; auto. lia. }
     assert (Hnh : Returned (last_val ls 0) <> Hang) by discriminate.
-    pose proof (sig_exit_restored s _ _ (c_nt c) (c_To c) (c_mo c) body HT Hu Hnh Hb0 eq_refl eq_refl) as R.
+    pose proof (sig_exit_restored s _ _ (c_nt c) (c_To c) (c_mo c) body HT Hu Hnh Hb0 eq_refl eq_refl eq_refl) as R.
     cbn zeta in R. destruct R as (R1 & R2 & R3 & R4). rewrite R1. repeat split; auto; apply R4.
   - unfold thr_op. rewrite Ho, (eqb_f (c_To c) 0) by lia. rewrite inner_eff_thr in He.
     rewrite thr_prefix; auto.
     2:{ intros D HD. destruct (c_nt c); inversion HD; subst. lia. }
     cbn [thr_body]. rewrite (ltb_t (now s + dur ls) (now s + c_To c)) by lia.
-    cbn [out rst negb andb set_open set_now now topen handler deadline interval workers lock].
+    cbn [out rst negb andb set_open set_now now topen handler deadline interval workers lock tasks].
     unfold restored, timer_back. repeat split; auto.
   - unfold asy_op. rewrite Ho, (eqb_f (c_To c) 0) by lia. unfold inner_eff in He.
     rewrite asy_prefix; auto; try lia.
-    cbn [asy_body out rst negb andb set_open set_now now topen handler deadline interval workers lock].
+    cbn [asy_body out rst negb andb set_open set_now now topen handler deadline interval workers lock tasks].
     unfold restored, timer_back. repeat split; auto.
 Qed.
 
@@ -686,18 +727,18 @@ Proof.
       rewrite (eqb_f (now s + T) 0) by lia. rewrite N.max_l by lia.
       rewrite (ltb_t (now s + d) (now s + T)) by lia. reflexivity. }
     assert (Hnh : Raised (EOther e) <> Hang) by discriminate.
-    pose proof (sig_exit_restored s _ _ nt T msg body HT Hu Hnh Hb0 eq_refl eq_refl) as R.
+    pose proof (sig_exit_restored s _ _ nt T msg body HT Hu Hnh Hb0 eq_refl eq_refl eq_refl) as R.
     cbn zeta in R. destruct R as (R1 & R2 & R3 & R4). cbn [andb] in *. rewrite R1. repeat split; auto; apply R4.
   - unfold thr_op. rewrite Ho, (eqb_f T 0) by lia.
     assert (E : thr_body nt false 0 [] (if nt then None else Some (now s + T)) [Exc d e] (now s) 0
                 = Some (now s + d, Raised (EOther e), false)).
     { cbn [thr_body]. destruct nt; cbn [reached leaf_fin]; rewrite ?(leb_f (now s + T) (now s)) by lia; reflexivity. }
     rewrite E. rewrite (ltb_t (now s + d) (now s + T)) by lia.
-    cbn [out rst negb andb set_open set_now now topen handler deadline interval workers lock].
+    cbn [out rst negb andb set_open set_now now topen handler deadline interval workers lock tasks].
     unfold restored, timer_back. repeat split; auto.
   - unfold asy_op. rewrite Ho, (eqb_f T 0) by lia.
     cbn [asy_body reached negb leaf_fin inner_deadline andb omin before].
     rewrite (leb_f (now s + T) (now s)) by lia. rewrite (ltb_t (now s + d) (now s + T)) by lia.
-    cbn [out rst negb andb set_open set_now now topen handler deadline interval workers lock].
+    cbn [out rst negb andb set_open set_now now topen handler deadline interval workers lock tasks].
     unfold restored, timer_back. repeat split; auto.
 Qed.
